@@ -74,8 +74,8 @@ theorem getCell_none {om : OMap} {o : Int} {sz : Nat} (h : getCell om o sz = non
   simpa using this
 
 /-- every live cell after a store is the written cell or a live cell that the store does not meet -/
-theorem live_storeConst {sm rv : Bool} {om : OMap} {o : Int} {sz : Nat} {c : Cell}
-    (h : c ∈ live (storeConst sm rv om o sz)) :
+theorem live_storeConst {sm : Bool} {om : OMap} {o : Int} {sz : Nat} {c : Cell}
+    (h : c ∈ live (storeConst sm om o sz)) :
     c = ⟨o, sz, false⟩ ∨ (c ∈ live om ∧ rangesMeet c.off c.size o sz = false) := by
   have hr := (mem_live.1 h).2
   have hmem := (mem_live.1 h).1
@@ -102,11 +102,9 @@ theorem live_storeConst {sm rv : Bool} {om : OMap} {o : Int} {sz : Nat} {c : Cel
       have hk' : c.hasKey o sz = false := by simpa using hk
       simpa [hk'] using hsk
 
-/-- the written cell is live after the store, unless `mk_cell` returns a cell that is marked as
-    removed (code as it is: `revive = false`) -/
-theorem written_live {sm rv : Bool} {om : OMap} {o : Int} {sz : Nat}
-    (hok : rv = true ∨ ∀ c ∈ om, c.hasKey o sz = true → c.removed = false) :
-    (⟨o, sz, false⟩ : Cell) ∈ live (storeConst sm rv om o sz) := by
+/-- the written cell is live after the store -/
+theorem written_live {sm : Bool} {om : OMap} {o : Int} {sz : Nat} :
+    (⟨o, sz, false⟩ : Cell) ∈ live (storeConst sm om o sz) := by
   apply mem_live.2
   refine ⟨?_, rfl⟩
   unfold storeConst mkCell
@@ -117,11 +115,7 @@ theorem written_live {sm rv : Bool} {om : OMap} {o : Int} {sz : Nat}
     split
     · exact List.mem_cons_self
     · rename_i hcond
-      have hrem : c0.removed = false := by
-        rcases hok with h1 | h1
-        · subst h1
-          simpa using hcond
-        · exact h1 c0 (mem_kill_key hmem hkey) hkey
+      have hrem : c0.removed = false := by simpa using hcond
       have := eq_of_hasKey hkey hrem
       rw [← this]; exact hmem
 
